@@ -318,6 +318,7 @@ def build_system_marking(rt_prog, drv_prog, nworkers, budget, initial):
     from ..mir.interp import Opaque
     models = list(POOL_MODELS) + CM.all_models()
     models.insert(0, (__import__("re").compile(r"(crossbeam_deque::)?(deque::)?Worker::push"), hk_worker_push))
+    models.insert(0, (__import__("re").compile(r"(fixedbitset::)?FixedBitSet::set"), lambda it, ctx, callee, args: UNIT))
     sysm = B.System([rt_prog, drv_prog], models, visible_marking, nworkers)
     term = Tup((Int(nworkers, "usize"), CM.mk_atomic(Int(nworkers, "usize")), CM.mk_atomic(Int(0, "usize")),
                 CM.mk_mutex(), CM.mk_condvar(1)), name="Terminator")
@@ -407,8 +408,11 @@ def run_config(rt, drv, N, budget, initial, K, tmo, deadline, qjobs=1, variant="
 CONFIGS = {
     # (workers, budget of children, initial items in the injector, K)
     # first entry = core configuration: must be decided completely (incl. "no execution is longer than K")
-    "quick": [(2, 1, 1, 52), (2, 2, 1, 40)],
-    "thorough": [(2, 1, 1, 52), (2, 2, 1, 75), (2, 3, 1, 95), (3, 1, 1, 72), (3, 2, 1, 85)],
+    # (workers, budget, initial items, K, variant): "driver" = worker loop of engines/drivers/src/c12.rs,
+    # "marking" = the real MarkingTask::{run, pop, trace, defensive_push} of gc/swiper/marking.rs
+    "quick": [(2, 1, 1, 52, "driver"), (2, 1, 1, 52, "marking"), (2, 2, 1, 40, "driver")],
+    "thorough": [(2, 1, 1, 52, "driver"), (2, 1, 1, 52, "marking"), (2, 2, 1, 75, "driver"), (2, 2, 1, 75, "marking"),
+                 (2, 3, 1, 95, "driver"), (3, 1, 1, 72, "driver"), (3, 1, 1, 72, "marking"), (3, 2, 1, 85, "driver")],
 }
 
 
@@ -428,9 +432,13 @@ def main(tier):
 
 
 def _cfg_worker(a):
-    rt, drv, (N, B_, I, K), tmo, deadline = a
+    rt, drv, (N, B_, I, K, variant), tmo, deadline = a
     try:
-        return run_config(rt, drv, N, B_, I, K, tmo, deadline, qjobs=4)
+        r = run_config(rt, drv, N, B_, I, K, tmo, deadline, qjobs=4, variant=variant)
+        r["variant"] = variant
+        r["cfg"]["variant"] = variant
+        r["cfg"]["core"] = (N, B_) == (2, 1)
+        return r
     except Inconclusive as e:
         return {"inconclusive": "N=%d B=%d: %s" % (N, B_, e)}
 
@@ -440,9 +448,9 @@ def finish(tier, t0, results, rep):
     samples = []
     states = sum(r["nodes"] for r in results)
     trans = sum(r["edges"] for r in results)
-    nq, undecided, bounded = BC.judge(results, rep, "terminator", lambda r: "N=%d B=%d" % (r["workers"], r["budget"]))
+    nq, undecided, bounded = BC.judge(results, rep, "terminator", lambda r: "N=%d B=%d %s" % (r["workers"], r["budget"], r.get("variant", "")))
     for r in results:
-        samples.append({k: r[k] for k in ("workers", "budget", "initial", "K", "nodes", "edges")})
+        samples.append({k: r.get(k) for k in ("workers", "budget", "initial", "K", "variant", "nodes", "edges")})
     cov = {
         "states": states, "transitions": trans, "traces_validated_against_impl": 0,
         "samples": samples + [{"query": n, **{k: v for k, v in q.items() if k != "trace"}} for n, q in results[0]["queries"].items()],
